@@ -455,6 +455,26 @@ func init() {
 				}
 			}
 		}
+		// a configuration that already has a job named like the self-monitoring job: the generated file is still
+		// a valid configuration with the original jobs in their order
+		if c.Part == 0 {
+			idx++
+			text := "scrape_configs:\n- job_name: j1\n  static_configs:\n  - targets: [\"x:1\"]\n- job_name: prometheus_shards\n  static_configs:\n  - targets: [\"own-monitoring:9090\"]\n"
+			info, err := pipe.LoadInfo(text)
+			if err != nil {
+				chk.Fatalf("%v", err)
+			}
+			data, err := pipe.Inject(info, c11Assign(1), sidecar.InjectConfigOptions{ProxyURL: "http://127.0.0.1:8008", PrometheusURL: "http://127.0.0.1:9090", ShardMonitorEnable: true})
+			r.States++
+			r.Transitions++
+			if err != nil {
+				r.Violate("C11:inject-error:job-named-like-self-monitor", "valid", err.Error(), idx, &c11Replay{Property: "C11", Clause: "valid", Config: text, Monitor: true, Detail: err.Error()})
+			} else if g, err := config.Load(string(data), false, log.NewNopLogger()); err != nil {
+				r.Violate("C11:invalid-file:job-named-like-self-monitor", "valid", "a configuration with a job named prometheus_shards and self-monitoring enabled: the generated file does not load: "+err.Error(), idx, &c11Replay{Property: "C11", Clause: "valid", Config: text, Monitor: true, Generated: string(data), Detail: err.Error()})
+			} else if len(g.ScrapeConfigs) < 2 || g.ScrapeConfigs[0].JobName != "j1" || g.ScrapeConfigs[1].JobName != "prometheus_shards" {
+				r.Violate("C11:jobs:job-named-like-self-monitor", "jobs", "the original jobs are not kept in their order", idx, &c11Replay{Property: "C11", Clause: "jobs", Config: text, Monitor: true, Generated: string(data)})
+			}
+		}
 		// the placeholder before the first real configuration
 		if c.Part == 0 {
 			data, err := pipe.Inject(prom.DefaultConfig, nil, sidecar.InjectConfigOptions{ProxyURL: "http://127.0.0.1:8008"})
